@@ -135,12 +135,13 @@ def apply_subset(rule, rep, nmin=12):
 
 
 @st.composite
-def point_chains(draw, base, identical, sigma, wcs=(0.0, 0.3, 0.6, 0.9)):
+def point_chains(draw, base, identical, sigma, wcs=(0.0, 0.3, 0.6, 0.9), rule=None):
     reps = list(base)
     if not identical and len(reps) > 1 and draw(st.integers(0, 4)) == 0:
         reps = [reps[draw(st.integers(0, len(reps) - 1))]]
     wc = draw(st.sampled_from(list(wcs)))
-    rule = {'mode': 'full'} if identical else draw(subset_rule())
+    if rule is None:
+        rule = {'mode': 'full'} if identical else draw(subset_rule())
     chains = []
     for r in reps:
         chains.append({'name': r['name'], 'idl': apply_subset(rule, r), 'form': draw(gen.idl_form()), 'sigma': sigma,
@@ -218,10 +219,19 @@ def fit_case(draw, tier, kind, fd=False, negligible_x=False):
         bases = [draw(ens_base(nm, lmin, lmx)) for nm in names]
         assign = [draw(st.integers(0, k - 1)) for _ in range(n)]
     ypts = []
+    # estimated correlation matrix: now and then the data points live on windows of equal length but different position
+    # (equally many, not the same configurations)
+    shifted = corr == 'est' and all(len(b) == 1 for b in bases) and draw(st.integers(0, 2)) == 0
     for i in range(n):
         rel = draw(fl(0.005, 0.05))
         sigma = rel * max(abs(fv[i]), 0.2 * fscale)
-        ch = draw(point_chains(bases[assign[i]], identical, sigma))
+        rule_i = None
+        if shifted:
+            L_ = bases[assign[i]][0]['len']
+            cut = max(1, L_ // 5)
+            k_ = draw(st.integers(0, cut))
+            rule_i = {'mode': 'window', 'a': (k_ + 0.5) / L_, 'b': (cut - k_ + 0.5) / L_, 'm': 2, 'off': 0, 'seed': 0}
+        ch = draw(point_chains(bases[assign[i]], identical and not shifted, sigma, rule=rule_i))
         N = sum(len(c['idl']) for c in ch)
         off = draw(fl(-3.0, 3.0))
         ypts.append({'mean': fv[i] + off * sigma / math.sqrt(N), 'chains': ch})
@@ -411,6 +421,9 @@ def weight_matrix(c):
             corr = pe.covariance(list(c.y), correlation=True)
         if np.linalg.cond(corr) > 1e6:
             raise Skip('estimated correlation matrix ill-conditioned')
+        if float(np.min(np.linalg.eigvalsh(0.5 * (corr + corr.T)))) < 1e-6:
+            # data on different configuration sets: the matrix of pairwise correlations need not be positive definite (C06)
+            raise Skip('estimated correlation matrix not positive definite')
         C = np.diag(dy) @ corr @ np.diag(dy)
         return np.linalg.inv(C), kw
     B = np.array(o['B'])
